@@ -38,14 +38,14 @@ var c07Configs = []c07Config{
 func init() {
 	Registry["C07"] = &Prop{
 		Plan: func(tier string) Plan {
-			return Plan{Level: "fault_enumeration", NCases: pick(tier, 16*c07Chunks, 300*c07Chunks), Batch: 2, CaseTimeout: 300,
+			return Plan{Level: "fault_enumeration", NCases: pick(tier, 16*c07Chunks, 1500*c07Chunks), Batch: 2, CaseTimeout: 300,
 				Rule: "histories are PRNG sequential write scripts (multi-version keys, tombstones below/at/above R, re-created keys, keys in skipped prefixes and outside the node's prefix) rebuilt identically on a fresh engine for every execution; " +
 					"for EVERY delete call i=1..D that a clean Compact(R) of the history makes (D learned from a dry run; positions are split over 4 cases per history) two executions are made: (a) delete i fails (generic error; compare-and-delete calls also with a failed-compare error), (b) every delete from i on fails (compactor died after i-1 deletions) and a NEW backend is opened on the store; and where delete i removes an index record, (c) a client re-creates that key right before the removal (placed through the storage wrapper). " +
 					"After each: all reads at revisions >= R (Get every key, List inside/outside the prefix, at R, at checkpoints above R and at latest) must equal the reference snapshot, then a clean Compact(R), the same reads again, then create/update/delete on every key against the reference; records outside the compaction ranges must be byte-identical. Every 5th history is instead the concurrent variant (writers on the keys being compacted while Compact runs). " +
 					"evaluations = executions (history x position x mode); non-trivial+distinct = executions in which the injected fault actually fired, identified by (history, position, mode)",
 				Assumptions: []string{"TTL expiry is inert here (TTL 1 h)", "reads overlapping a running compaction are not judged, only reads after it returned",
 					"a compactor death is modelled as every later delete failing followed by a new backend over the same store"},
-				MinConcl: pick(tier, 40, 800)}
+				MinConcl: pick(tier, 40, 4000)}
 		},
 		Name: func(c *harness.Case) string {
 			h := c.Index / c07Chunks
